@@ -177,6 +177,14 @@ def eq_truth(p, pred=None, last=False):
     return None
 
 
+def arg_kw(call, name):
+    """keyword `name` of a call term (None if absent)"""
+    for k, v in call[3]:
+        if k == name:
+            return v
+    return None
+
+
 def self_attr(name):
     return ("attr", SELF, name)
 
